@@ -212,8 +212,8 @@ func TestVerif_C13_e2eh3(t *testing.T) {
 			sc.class = "h3-request-body-dump"
 		}
 		viaSet := r.Intn(2) == 0
-		off, _ := c13GuardG(timeout+margin, func() c13GRunOut { return c13RunG(&peer.c13GScripts, mk, base, sc, nil, false, timeout) })
-		on, hung := c13GuardG(timeout+margin, func() c13GRunOut { return c13RunG(&peer.c13GScripts, mk, base, sc, &cfg, viaSet, timeout) })
+		off, _ := c13GuardG(timeout+margin, func() c13GRunOut { return c13RunG(&peer.c13GScripts, mk, base, sc, nil, false, timeout, cfg.clone) })
+		on, hung := c13GuardG(timeout+margin, func() c13GRunOut { return c13RunG(&peer.c13GScripts, mk, base, sc, &cfg, viaSet, timeout, cfg.clone) })
 		p := c13GPending(fmt.Sprintf("h3 #%d %s %s %s", c, sc.name, cfg.String(), sc.method),
 			fmt.Sprintf("%s %s body=%dB via %q; %s; result %s", sc.method, sc.name, len(sc.body), sc.bodyVia, cfg.String(), c13Clip(off.res.String(), 160)),
 			sc, cfg, off, on, false)
